@@ -18,6 +18,7 @@ package pseudonymization
 
 import (
 	"encoding/binary"
+	"errors"
 	"github.com/cossacklabs/acra/pseudonymization/common"
 )
 
@@ -32,11 +33,20 @@ func encodeInt64(v int64) []byte {
 	return d
 }
 
+// ErrInvalidTokenValueLength is returned when a stored integer token value has not the size of its type
+var ErrInvalidTokenValueLength = errors.New("stored token value has incorrect length for its type")
+
 func decodeInt32(data []byte) (int32, error) {
+	if len(data) != 4 {
+		return 0, ErrInvalidTokenValueLength
+	}
 	return int32(binary.LittleEndian.Uint32(data)), nil
 }
 
 func decodeInt64(data []byte) (int64, error) {
+	if len(data) != 8 {
+		return 0, ErrInvalidTokenValueLength
+	}
 	return int64(binary.LittleEndian.Uint64(data)), nil
 }
 
